@@ -127,6 +127,13 @@ impl Context<'_> {
         let mut by_id: Option<ElementId> = None;
 
         let historical = self.is_historical();
+        // Naming an id skips the index, so the constraints the index would
+        // have applied have to be decided against the loaded element too —
+        // or `{id: "C-1", name: "Nobody"}` matches whatever C-1 is called.
+        let names_id = matcher.iter().any(|(key, value)| {
+            matches!(column_of(kind, key), Some("__id"))
+                && !matches!(value, MatchValue::Variable(_))
+        });
         for (key, value) in matcher {
             let slot = self.classify(value)?;
             if key == "state" {
@@ -137,7 +144,7 @@ impl Context<'_> {
             // after the same normalization the index path applies, or a local
             // type name would be compared against the exact symbol it
             // resolves to and never match.
-            if historical && !matches!(column_of(kind, key), Some("__id")) {
+            if (historical || names_id) && !matches!(column_of(kind, key), Some("__id")) {
                 let slot = match slot {
                     Slot::Value(value) => {
                         Slot::Value(Json::String(self.matcher_text(kind, key, &value)?))
